@@ -482,7 +482,7 @@ def rule_choice_search(ctx: Ctx, rid="C03.BISECT-RIGHT", parts=("right", "clamp"
         if not isinstance(e, ast.Name):
             return False
         fills = [a for a in walk_no_nested(fn) if isinstance(a, ast.Assign) and any(
-            isinstance(t, ast.Subscript) and dotted(t.value) == e.id and isinstance(t.slice, ast.Slice)
+            isinstance(t, ast.Subscript) and dotted(t.value) in (e.id, "cum_weights") and isinstance(t.slice, ast.Slice)
             and t.slice.lower is None and t.slice.upper is None for t in a.targets)]
         return bool(fills) and all(norm(a.value) in ("accumulate(weights)", "itertools.accumulate(weights)", "list(accumulate(weights))") for a in fills)
     if cw and all(buffer_prefix(x.value) for x in cw):
@@ -637,6 +637,156 @@ def module_level_mutables(m: Module):
     return out
 
 
+def _passed_params(callee, call, pred):
+    params = [a.arg for a in callee.args.posonlyargs + callee.args.args]
+    if params and params[0] in ("self", "cls") and isinstance(call.func, ast.Attribute):
+        params = params[1:]
+    passed = set()
+    for i, a in enumerate(call.args):
+        if i < len(params) and pred(a):
+            passed.add(params[i])
+    for kw in call.keywords:
+        if kw.arg and pred(kw.value):
+            passed.add(kw.arg)
+    return passed
+
+
+def _may_return_param(f, names):
+    """Can helper f return (an alias of) one of its parameters `names`?  Flow-insensitive."""
+    al = set(names)
+    for _ in range(3):
+        for n in walk_no_nested(f):
+            if isinstance(n, ast.Assign) and isinstance(n.value, (ast.Name, ast.IfExp, ast.BoolOp)):
+                src = [x.id for x in ast.walk(n.value) if isinstance(x, ast.Name)]
+                if any(x in al for x in src):
+                    al.update(t.id for t in n.targets if isinstance(t, ast.Name))
+    for r in walk_no_nested(f):
+        if isinstance(r, ast.Return) and r.value is not None:
+            v = r.value
+            cands = [v] if isinstance(v, ast.Name) else ([v.body, v.orelse] if isinstance(v, ast.IfExp) else (v.values if isinstance(v, ast.BoolOp) else []))
+            if any(isinstance(c, ast.Name) and c.id in al for c in cands):
+                return True
+    return False
+
+
+INPLACE_AUG = (ast.Add, ast.BitOr, ast.BitAnd, ast.Sub, ast.BitXor, ast.Mult)
+
+
+def alias_mutations(m: Module, fn, is_src, param_aliases=(), resolve=None, depth=0):
+    """Sites in `fn` where the object denoted by `is_src(expr)` - or a local name that may alias it - is
+    changed in place: a mutator method, a subscript/slice store or delete, an in-place operator, or being
+    passed to a helper of the same module/class that does one of these to its parameter.  May-alias
+    dataflow over the statement tree: an assignment from a non-aliasing expression kills the alias."""
+    sites = []
+
+    def denotes(e, al):
+        if e is None:
+            return False
+        if is_src(e):
+            return True
+        if isinstance(e, ast.Name):
+            return e.id in al
+        if isinstance(e, ast.NamedExpr):
+            return denotes(e.value, al)
+        if isinstance(e, ast.IfExp):
+            return denotes(e.body, al) or denotes(e.orelse, al)
+        if isinstance(e, ast.BoolOp):
+            return any(denotes(v, al) for v in e.values)
+        if isinstance(e, ast.Call) and resolve is not None and depth < 3:
+            # a helper that can hand one of its parameters back (`return cum_weights`)
+            callee = resolve(e)
+            if callee is not None and callee is not fn:
+                passed = _passed_params(callee, e, lambda a: denotes(a, al))
+                if passed and _may_return_param(callee, passed):
+                    return True
+        return False
+
+    def scan_expr(node, al):
+        for n in ast.walk(node):
+            if isinstance(n, ast.Call):
+                if isinstance(n.func, ast.Attribute) and n.func.attr in flow.MUTATORS and denotes(n.func.value, al):
+                    sites.append((n, f"`{norm(n)[:70]}`"))
+                elif resolve is not None and depth < 3:
+                    callee = resolve(n)
+                    if callee is not None and callee is not fn:
+                        passed = _passed_params(callee, n, lambda a: denotes(a, al))
+                        if passed:
+                            for sub, how in alias_mutations(m, callee, lambda e: False, passed, resolve, depth + 1):
+                                sites.append((n, f"`{norm(n)[:50]}` -> {callee.name}: {how}"))
+
+    def targets_of(st):
+        if isinstance(st, ast.Assign):
+            return st.targets
+        if isinstance(st, (ast.AugAssign, ast.AnnAssign)):
+            return [st.target]
+        if isinstance(st, ast.Delete):
+            return st.targets
+        return []
+
+    def run(stmts, al):
+        al = set(al)
+        for st in stmts:
+            if isinstance(st, (ast.FunctionDef, ast.AsyncFunctionDef, ast.ClassDef)):
+                run(st.body, al)     # closures see the aliases of the enclosing scope
+                continue
+            if isinstance(st, ast.If):
+                scan_expr(st.test, al)
+                al = run(st.body, al) | run(st.orelse, al)
+                continue
+            if isinstance(st, (ast.For, ast.AsyncFor, ast.While)):
+                scan_expr(st.iter if hasattr(st, "iter") else st.test, al)
+                a1 = al | run(st.body, al)
+                al = a1 | run(st.body, a1) | run(st.orelse, a1)
+                continue
+            if isinstance(st, (ast.With, ast.AsyncWith)):
+                for it in st.items:
+                    scan_expr(it.context_expr, al)
+                    if isinstance(it.optional_vars, ast.Name) and denotes(it.context_expr, al):
+                        al.add(it.optional_vars.id)
+                al = run(st.body, al)
+                continue
+            if isinstance(st, ast.Try):
+                a1 = run(st.body, al)
+                for h in st.handlers:
+                    a1 |= run(h.body, al | a1)
+                al = a1 | run(st.orelse, a1) | run(st.finalbody, a1)
+                continue
+            if isinstance(st, ast.Match):
+                scan_expr(st.subject, al)
+                out = set(al)
+                for c in st.cases:
+                    out |= run(c.body, al)
+                al = out
+                continue
+            scan_expr(st, al)
+            for t in targets_of(st):
+                for tt in (t.elts if isinstance(t, (ast.Tuple, ast.List)) else [t]):
+                    if isinstance(tt, ast.Subscript) and denotes(tt.value, al):
+                        sites.append((st, f"`{norm(st)[:70]}`"))
+                    if isinstance(st, ast.AugAssign) and isinstance(st.op, INPLACE_AUG) and denotes(tt, al):
+                        sites.append((st, f"in-place `{norm(st)[:70]}`"))
+            if isinstance(st, (ast.Assign, ast.AnnAssign)) and getattr(st, "value", None) is not None:
+                for t in targets_of(st):
+                    if isinstance(t, ast.Name):
+                        if denotes(st.value, al):
+                            al.add(t.id)
+                        else:
+                            al.discard(t.id)
+            for n in ast.walk(st):
+                if isinstance(n, ast.NamedExpr) and isinstance(n.target, ast.Name) and denotes(n.value, al):
+                    al.add(n.target.id)
+        return al
+
+    run(fn.body, set(param_aliases))
+    seen, out = set(), []
+    for n, how in sites:
+        k = (getattr(n, "lineno", 0), getattr(n, "col_offset", 0), how)
+        if k not in seen:
+            seen.add(k)
+            out.append((n, how))
+    return out
+
+
 CACHE_DECORATORS = {"lru_cache", "functools.lru_cache", "cache", "functools.cache", "cached_property", "functools.cached_property",
                     "memoize", "cachetools.cached"}
 
@@ -684,8 +834,36 @@ def rule_no_shared_state(ctx: Ctx, rid="C17.NO-SHARED-WRITES", modules=None, onl
                 continue
             if accumulating_only and is_reset(an):
                 continue
-            ctx.rep.bad(rid, f"{m.rel}:{cn}.{an}", f"class-level mutable default `{norm(st)[:60]}` is one object shared by every "
-                        "instance (and thread)", site=m.site(st), text=norm(st)[:100])
+            # a class-level list/dict/set is shared by all instances; it is shared *state* only if something
+            # changes it in place (a lookup table that is only read is a constant)
+            cnode = m.classes()[cn]
+            shadowed = any(isinstance(x, ast.Assign) and any(isinstance(t, ast.Attribute) and t.attr == an and dotted(t.value) == "self"
+                                                             for t in x.targets) for x in ast.walk(cnode))
+            muts = []
+            for m2 in ctx.src.own_modules():
+                for c2name, c2 in list(m2.classes().items()) + [(None, None)]:
+                    fns = ([x for x in c2.body if isinstance(x, (ast.FunctionDef, ast.AsyncFunctionDef))] if c2 is not None
+                           else list(m2.functions().values()))
+                    for f2 in fns:
+                        inside = m2 is m and c2name == cn
+
+                        def is_src(e, inside=inside):
+                            if not (isinstance(e, ast.Attribute) and e.attr == an):
+                                return False
+                            b = e.value
+                            d = dotted(b)
+                            if d is not None and d.split(".")[-1] == cn:
+                                return True
+                            if inside and (d == "cls" or d == "self.__class__" or (isinstance(b, ast.Call) and dotted(b.func) == "type")):
+                                return True
+                            return inside and d == "self" and not shadowed
+                        for node, how in alias_mutations(m2, f2, is_src, resolve=resolver_for(m2, c2)):
+                            muts.append(f"{m2.rel}:{f2.name} {how}")
+            if muts:
+                ctx.rep.bad(rid, f"{m.rel}:{cn}.{an}", f"class-level mutable default `{norm(st)[:60]}` is one object shared by every "
+                            f"instance (and thread), and it is changed in place by {'; '.join(muts[:3])}", site=m.site(st), text=norm(st)[:100])
+            else:
+                ctx.rep.ok(rid, f"{m.rel}:{cn}.{an}", "class-level container is never changed in place (read-only table)")
         for fn in [x for x in ast.walk(m.tree) if isinstance(x, (ast.FunctionDef, ast.AsyncFunctionDef))]:
             if only is not None and not only(m, fn):
                 continue
@@ -734,6 +912,21 @@ def rule_no_shared_state(ctx: Ctx, rid="C17.NO-SHARED-WRITES", modules=None, onl
                     b0 = dotted(n.args[0])
                     if b0 in class_names or b0 == "cls" or (isinstance(n.args[0], ast.Call) and dotted(n.args[0].func) == "type"):
                         ctx.rep.bad(rid, q, f"setattr on a class at run time ({norm(n)[:60]})", site=m.site(n), text=norm(n)[:100])
+            # the same through local aliases and helpers (`buf = _BUFFER; buf[:] = ...`)
+            flagged = {getattr(o, "site", "") for o in ctx.rep.obs if not o.ok and o.rule == rid}
+            fn_locals = _locals(fn)
+            cls_of = next((c for c in m.classes().values() if fn in c.body), None)
+            for gname, (gst, gmut, _gval) in mm.items():
+                if not gmut or (gname in fn_locals and gname not in glob):
+                    continue
+                if accumulating_only and is_reset(gname):
+                    continue
+                for node, how in alias_mutations(m, fn, lambda e, g=gname: isinstance(e, ast.Name) and e.id == g,
+                                                 resolve=resolver_for(m, cls_of)):
+                    if _under_lock(fn, node) or m.site(node) in flagged:
+                        continue
+                    ctx.rep.bad(rid, q, f"mutates the module-level object `{gname}` at run time through an alias or helper: {how}",
+                                site=m.site(node), text=f"module mutate {norm(node)[:100]}")
     ctx.rep.ok(rid, "src/pyab_experiment (outside sly)", f"{nfun} functions scanned for shared-state writes")
     ctx.rep.floor("functions scanned for shared-state writes", nfun, floor if floor is not None else (25 if not modules else 2))
 
@@ -1419,11 +1612,15 @@ def rule_call_forwards(ctx: Ctx, rid="C09.CALL-FORWARDS", publish=False, no_try=
     kw = a.kwarg.arg if a.kwarg else "kwargs"
     paths = flow.enumerate_paths(call)
     rec = m.get_method(c, "recompile")
-    written = set()
+    written, inplace = set(), set()
     for p_ in flow.enumerate_paths(rec, resolver=resolver_for(m, c)):
         for st in p_.stmts():
             if isinstance(st, ast.stmt):
                 for k, at, rhs in _is_state_write(st, "self", set(), set()):
+                    if k in ("instance-container", "instance-nested"):
+                        base = at.split("[")[0].split(".")
+                        at = base[1] if len(base) > 1 else base[0]
+                        inplace.add(at)
                     written.add(at)
     n = 0
     for p in paths:
@@ -1491,21 +1688,130 @@ def rule_call_forwards(ctx: Ctx, rid="C09.CALL-FORWARDS", publish=False, no_try=
                     reads.add(x.attr)
                 if m.get_method(c, x.attr, required=False) is not None and x.attr not in written:
                     todo.append(x.attr)
-    ctx.rep.check(len(reads) == 1, "C17.SINGLE-STORE-PUBLISH", f"{EV}:ExperimentEvaluator.__call__",
+    shared_edit = sorted(reads & inplace)
+    ctx.rep.check(len(reads) == 1 and not shared_edit, "C17.SINGLE-STORE-PUBLISH", f"{EV}:ExperimentEvaluator.__call__",
                   f"a call reads exactly one attribute that recompile writes ({sorted(reads)}): it observes the old or the new "
-                  "function, never a mixture" if len(reads) == 1 else
-                  f"a call reads {len(reads)} attributes written by recompile ({sorted(reads)}): racing a recompile it can combine "
-                  "the old value of one with the new value of the other", text=f"reads {sorted(reads)}")
+                  "function, never a mixture" if len(reads) == 1 and not shared_edit else
+                  (f"a call reads self.{shared_edit[0]}, a container that recompile edits in place: a call racing a recompile can see it "
+                   "half-updated (or fail iterating it)" if shared_edit else
+                   f"a call reads {len(reads)} attributes written by recompile ({sorted(reads)}): racing a recompile it can combine "
+                   "the old value of one with the new value of the other"), text=f"reads {sorted(reads)}")
+
+
+def _call_path_reads(m: Module, c, start="__call__", whole_written=()):
+    """Instance attributes read when the evaluator is called: __call__ and, transitively, the methods and properties of
+    the class it goes through (a name that recompile overwrites as a whole is a slot, not a method to follow)."""
+    props = {f.name for f in c.body if isinstance(f, ast.FunctionDef) and any(dotted(d) in ("property", "functools.cached_property", "cached_property")
+                                                                             for d in f.decorator_list)}
+    methods = {f.name: f for f in c.body if isinstance(f, (ast.FunctionDef, ast.AsyncFunctionDef))}
+    reads, seen, todo = {}, set(), [start]
+    while todo:
+        name = todo.pop()
+        if name in seen or name not in methods:
+            continue
+        seen.add(name)
+        f = methods[name]
+        self_name = f.args.args[0].arg if f.args.args else "self"
+        for n in ast.walk(f):
+            if isinstance(n, ast.Attribute) and isinstance(n.ctx, ast.Load) and dotted(n.value) == self_name:
+                if n.attr in methods and n.attr not in whole_written:
+                    todo.append(n.attr)        # a method call or a property read
+                    if n.attr in props:
+                        continue
+                else:
+                    reads.setdefault(n.attr, (f, n))
+    return reads
+
+
+def rule_history_free(ctx: Ctx, rid="C11.HISTORY-FREE"):
+    """After a successful recompile an evaluator is a function of the text it accepted last: every piece of instance state
+    a call reads is replaced as a whole by recompile, never grown or edited in place from what earlier texts left there."""
+    m, c = _evaluator(ctx)
+    rec = m.get_method(c, "recompile")
+    self_name = rec.args.args[0].arg
+    paths = flow.enumerate_paths(rec, resolver=resolver_for(m, c))
+    whole_any = set()
+    per_path = []
+    for p in paths:
+        if p.exit == "raise":
+            continue
+        whole, inplace = {}, []
+        for i, st in enumerate(p.stmts()):
+            if not isinstance(st, ast.stmt):
+                continue
+            for k, a, rhs in _is_state_write(st, self_name, set(), set()):
+                if k == "instance" and not isinstance(st, ast.AugAssign):
+                    whole.setdefault(a, i)
+                elif k in ("instance-container", "instance-nested") or (k == "instance" and isinstance(st, ast.AugAssign)):
+                    base = a if k == "instance" else (a.split("[")[0].split(".")[1] if "." in a else a)
+                    const_key = False
+                    if isinstance(st, ast.Assign):
+                        for t in st.targets:
+                            if isinstance(t, ast.Subscript) and isinstance(t.slice, ast.Constant):
+                                const_key = True
+                    inplace.append((i, base, st, const_key))
+        whole_any |= set(whole)
+        per_path.append((p, whole, inplace))
+    reads = _call_path_reads(m, c, whole_written=whole_any)
+    ctx.rep.unit(f"{EV}:ExperimentEvaluator.__call__ (reads {sorted(reads)})")
+    n = 0
+    reported = set()
+    for p, whole, inplace in per_path:
+        for i, base, st, const_key in inplace:
+            if base not in reads:
+                continue
+            n += 1
+            fresh_first = base in whole and whole[base] < i
+            if fresh_first or const_key:
+                continue
+            key = norm(st)
+            if key in reported:
+                continue
+            reported.add(key)
+            ctx.rep.bad(rid, f"{EV}:ExperimentEvaluator.recompile[{base}]", f"`{norm(st)[:70]}` edits self.{base} in place without replacing it "
+                        f"first, and a call reads self.{base} ({reads[base][0].name}): what the evaluator serves depends on the texts it "
+                        "accepted before, not only on the last one", site=m.site(st), text=key[:100])
+    for a in sorted(reads):
+        if a in whole_any:
+            ctx.rep.ok(rid, f"{EV}:ExperimentEvaluator[{a}]", f"read by a call ({reads[a][0].name}) and replaced as a whole by each successful recompile")
+        elif a not in {b for _, _, ip in per_path for _, b, _, _ in ip}:
+            ctx.rep.ok(rid, f"{EV}:ExperimentEvaluator[{a}]", f"read by a call ({reads[a][0].name}); recompile never writes it", nontrivial=False)
+    ctx.rep.floor("instance attributes read on the call path", len(reads), 1)
 
 
 def rule_init_delegates(ctx: Ctx, rid="C11.INIT-DELEGATES"):
+    """Construction is the first load: __init__ hands its source to self.recompile unconditionally and lets a failure
+    propagate (no object results).  Initialising other instance attributes around the call is not a deviation."""
     m, c = _evaluator(ctx)
     init = m.get_method(c, "__init__")
+    src_params = [a.arg for a in init.args.args[1:] + init.args.kwonlyargs]
+
+    def is_recompile(st):
+        v = st.value if isinstance(st, (ast.Expr, ast.Assign, ast.Return)) else None
+        return isinstance(v, ast.Call) and dotted(v.func) == "self.recompile"
+    top = [st for st in init.body if is_recompile(st)]
+    nested = [n for n in ast.walk(init) if isinstance(n, ast.Call) and dotted(n.func) == "self.recompile"]
     body = [s for s in init.body if not (isinstance(s, ast.Expr) and isinstance(s.value, ast.Constant))]
-    ok = len(body) == 1 and isinstance(body[0], ast.Expr) and dotted(getattr(body[0].value, "func", None)) == "self.recompile"
-    ctx.rep.check(ok, rid, f"{EV}:ExperimentEvaluator.__init__", "__init__ only calls recompile (a failed construction yields no object)"
-                  if ok else f"__init__ does more than delegate: {[norm(s)[:40] for s in body]}", site=m.site(init),
-                  text=" ; ".join(norm(s)[:60] for s in body))
+    why = ""
+    if not nested:
+        why = "__init__ never calls self.recompile: constructing an evaluator loads nothing"
+    elif not top:
+        # the only accepted wrapper: try/except whose handlers all re-raise
+        tries = [t for t in ast.walk(init) if isinstance(t, ast.Try) and any(x is nested[0] for b_ in t.body for x in ast.walk(b_))]
+        if tries and all(h.body and isinstance(h.body[-1], ast.Raise) for t in tries for h in t.handlers) and \
+                not any(isinstance(x, (ast.If, ast.For, ast.While)) and any(y is nested[0] for y in ast.walk(x)) for x in ast.walk(init)):
+            why = ""
+        else:
+            why = "the recompile call in __init__ is conditional or its failure can be swallowed: " + norm(body[0])[:60]
+    else:
+        call = top[0].value
+        args = [norm(a) for a in call.args] + [norm(k.value) for k in call.keywords]
+        if not args or not any(a in src_params for a in args):
+            why = f"__init__ calls recompile({', '.join(args)}) - not with the source it was given"
+    ok = not why
+    ctx.rep.check(ok, rid, f"{EV}:ExperimentEvaluator.__init__", "__init__ passes its source to recompile unconditionally and lets a failure "
+                  "propagate (a failed construction yields no object)" if ok else why, site=m.site(init),
+                  text=" ; ".join(norm(s)[:60] for s in body if is_recompile(s) or not ok))
 
 
 def rule_none_is_error(ctx: Ctx, rid="C06.NONE-IS-ERROR"):
@@ -1555,47 +1861,22 @@ def rule_args_unmodified(ctx: Ctx, rid="C16.ARGS-UNMODIFIED"):
     m, fn = _choice(ctx)
     params = [a.arg for a in fn.args.args + fn.args.kwonlyargs]
     tracked = set(params[1:])      # population, weights, cum_weights
-    aliases = set(tracked)
-    # aliases: plain `x = <tracked name>`
-    for st in walk_no_nested(fn):
-        if isinstance(st, ast.Assign) and isinstance(st.value, ast.Name) and st.value.id in aliases:
-            for t in st.targets:
-                if isinstance(t, ast.Name) and t.id not in tracked:
-                    aliases.add(t.id)
-    rebinding = {}
-    probs = []
+    # may-alias dataflow: a parameter name rebound to another object stops denoting the caller's object from there on
+    probs = alias_mutations(m, fn, lambda e: False, param_aliases=tracked, resolve=resolver_for(m))
     for st in walk_no_nested(fn):
         if isinstance(st, ast.Assign):
             for t in st.targets:
                 if isinstance(t, ast.Name) and t.id in tracked:
-                    rebinding[t.id] = st
-                if isinstance(t, ast.Subscript) and dotted(t.value) in aliases:
-                    probs.append((st, f"item assignment on the caller's {dotted(t.value)}"))
-        if isinstance(st, ast.AugAssign):
-            d = dotted(st.target if not isinstance(st.target, ast.Subscript) else st.target.value)
-            if d in aliases:
-                probs.append((st, f"in-place operator on the caller's {d}"))
-        if isinstance(st, ast.Delete):
-            for t in st.targets:
-                if isinstance(t, ast.Subscript) and dotted(t.value) in aliases:
-                    probs.append((st, f"del on the caller's {dotted(t.value)}"))
-        if isinstance(st, ast.Call) and isinstance(st.func, ast.Attribute) and st.func.attr in flow.MUTATORS \
-                and dotted(st.func.value) in aliases:
-            # a name rebound to a fresh list before this call is not the caller's object any more
-            nm = dotted(st.func.value)
-            rb = rebinding.get(nm)
-            if rb is None or rb.lineno > st.lineno:
-                probs.append((st, f"{nm}.{st.func.attr}() mutates the caller's argument"))
-    for nm, st in rebinding.items():
-        fresh = (isinstance(st.value, ast.Call) and not (isinstance(st.value.func, ast.Attribute) and dotted(st.value.func.value) in aliases)) \
-            or (isinstance(st.value, ast.Name) and st.value.id not in aliases)      # some other object, not the caller's
-        ctx.rep.check(fresh, rid, f"{BIN}:deterministic_choice[{nm} :=]",
-                      f"{nm} is rebound to {norm(st.value)[:40]} (not the caller's object), the caller's object is untouched" if fresh else
-                      f"{nm} is rebound to {norm(st.value)[:50]}, which may alias the caller's object", site=m.site(st), text=norm(st))
+                    v = st.value
+                    fresh = (isinstance(v, ast.Call) and not (isinstance(v.func, ast.Attribute) and dotted(v.func.value) in tracked)) \
+                        or (isinstance(v, ast.Name) and v.id not in tracked) or isinstance(v, (ast.List, ast.ListComp, ast.Tuple, ast.BinOp))
+                    ctx.rep.check(fresh, rid, f"{BIN}:deterministic_choice[{t.id} :=]",
+                                  f"{t.id} is rebound to {norm(v)[:40]} (not the caller's object), the caller's object is untouched" if fresh else
+                                  f"{t.id} is rebound to {norm(v)[:50]}, which may alias the caller's object", site=m.site(st), text=norm(st))
     con = f"{BIN}:deterministic_choice"
     if probs:
         st, why = probs[0]
-        ctx.rep.bad(rid, con, why, site=m.site(st), text=norm(st)[:100])
+        ctx.rep.bad(rid, con, f"the caller's argument (or an alias of it) is changed in place: {why}", site=m.site(st), text=norm(st)[:100])
     else:
         ctx.rep.ok(rid, con, f"no mutating operation on {sorted(tracked)} or an alias", site=m.site(fn))
 
